@@ -32,5 +32,5 @@ try:
 finally:
     sh(f"git -C /repo worktree remove --force {WT}")
     sh(f"cd {VERIF} && ./build/extract -repo /repo -lean lean -json build/generated.json")
-    sh(f"cd {VERIF} && ./build/extract_wire -repo /repo -ns Generated -out lean/RedkaModel/Generated/Grammar.lean")
+    sh(f"cd {VERIF} && ./build/extract_wire -repo /repo -ns Generated -out lean/RedkaModel/Generated/Grammar.lean -cmds lean/RedkaModel/Generated/Cmds.lean")
     sh(f"cd {VERIF} && python3 -c 'import veriflib as V; V.build_harness(True)'")
